@@ -6,7 +6,7 @@
      WF strict rs : l is a line of the grammar and reports rs.  [strict] = false marks lines
                     the reader accepts leniently but which are outside the domain of the
                     decoding property C04: an empty value after `key=`, a temperature with
-                    more than 4 or a voltage with more than 2 integer digits.
+                    more than 3 or a voltage with more than 2 integer digits.
      Malformed    : the keyword / key name is part of the grammar but the rest is not
                     well-formed (no claim is made about such lines);
      NonGrammar   : the keyword or key name is not part of the grammar.
@@ -57,7 +57,7 @@ Definition read_bool (s : bytes) : option bool :=
   match read_nat s with Some v => if v =? 0 then Some false else if v =? 1 then Some true else None | None => None end.
 
 (* fixed-point decimal with exactly k fraction digits: (strict, value * 10^k);
-   strict = at most 4 integer digits for tenths (|x| < 10000.0), 2 for hundredths (|x| < 100.00) *)
+   strict = at most 3 integer digits for tenths (|x| < 1000.0), 2 for hundredths (|x| < 100.00) *)
 Definition read_dec (k : nat) (s : bytes) : option (bool * Z) :=
   let neg := match s with 45 :: _ => true | _ => false end in
   let s := if neg then tl s else s in
@@ -65,7 +65,7 @@ Definition read_dec (k : nat) (s : bytes) : option (bool * Z) :=
   | (ip, fp, true) =>
     if digits_nonempty ip && digits_nonempty fp && (List.length fp =? k)%nat then
       let v := dec_val ip 0 * 10 ^ Z.of_nat k + dec_val fp 0 in
-      Some ((List.length ip <=? (if (k =? 1)%nat then 4 else 2))%nat, if neg then - v else v)
+      Some ((List.length ip <=? (if (k =? 1)%nat then 3 else 2))%nat, if neg then - v else v)
     else None
   | _ => None
   end.
